@@ -264,11 +264,18 @@ func (b *VisualSampleEntryBox) RemoveEncryption() (*SinfBox, error) {
 	if sinf == nil {
 		return nil, fmt.Errorf("does not have sinf box")
 	}
+	// Remove the sinf box that is returned (the last one added), not just the first sinf child:
+	// an entry may hold more than one sinf box
 	for i := range b.Children {
-		if b.Children[i].Type() == "sinf" {
+		if b.Children[i] == Box(sinf) {
 			b.Children = append(b.Children[:i], b.Children[i+1:]...)
-			b.Sinf = nil
 			break
+		}
+	}
+	b.Sinf = nil
+	for _, ch := range b.Children {
+		if s, ok := ch.(*SinfBox); ok {
+			b.Sinf = s
 		}
 	}
 	b.name = sinf.Frma.DataFormat
